@@ -329,7 +329,13 @@ func VerifC03Machine(pre int, k int, full int, cut int) {
 			g.ended = true
 			g.lastKind = kOther
 			g.lastCut = true
-			vrf.Fork(1001)
+			// the connection ends by EOF, by an idle timeout or by another network error
+			switch vrf.Fork(1003 + vrf.Choose("endKind", 3)) {
+			case 1004:
+				return vrf.Step{Kind: vrf.StepErr, Cut: true}
+			case 1005:
+				return vrf.Step{Kind: vrf.StepErr}
+			}
 			return vrf.Step{Kind: vrf.StepEOF}
 		}
 		step++
